@@ -31,10 +31,10 @@ ASSUMPTIONS = [
     "encoder output rules are checked by decoding it with the reference codec and, for base64, byte equality with the reference encoder",
 ]
 COMPONENTS = {"real": ["lib/chibi/base64.scm (streaming encode/decode)", "lib/chibi/json.c reader/writer", "lib/chibi/csv.scm", "lib/chibi/quoted-printable.scm",
-                       "(scheme bytevector) accessors (bytevector.stub)", "lib/chibi/uri.scm uri-encode / uri-decode", "read-bytevector!/read-string/port buffering", "collector"],
+                       "(scheme bytevector) accessors (bytevector.stub)", "lib/chibi/uri.scm uri-encode / uri-decode", "lib/srfi/160/uvprims.stub accessors", "read-bytevector!/read-string/port buffering", "collector"],
               "stub": ["byte delivery schedule", "stored-byte corruption", "collection schedule", "clock"]}
 BUDGET = {"quick": {"seconds": 55, "cases": 8000}, "thorough": {"seconds": 1200, "cases": 600000}}
-IMPORTS = ["(srfi 18)", "(chibi io)", "(chibi base64)", "(chibi json)", "(chibi csv)", "(chibi quoted-printable)", "(scheme bytevector)", "(chibi uri)"]
+IMPORTS = ["(srfi 18)", "(chibi io)", "(chibi base64)", "(chibi json)", "(chibi csv)", "(chibi quoted-printable)", "(scheme bytevector)", "(chibi uri)", "(srfi 160 base)"]
 CONFIGS = {
     "sim": {"variant": "sim", "imports": IMPORTS, "timeout_ms": 60000},
     "tiny": {"variant": "tiny", "imports": IMPORTS, "timeout_ms": 60000},
@@ -126,7 +126,7 @@ def corrupt(data, spec):
 
 
 def generate(rng, tier, index, seed):
-    fam = rng.weighted([("b64-encode", 3), ("b64-decode", 3), ("json", 5), ("csv", 3), ("qp", 2), ("accessors", 3), ("uri", 2)])
+    fam = rng.weighted([("b64-encode", 3), ("b64-decode", 3), ("json", 5), ("csv", 3), ("qp", 2), ("accessors", 3), ("uri", 2), ("uvector", 2)])
     fault = rng.chance(1, 3) and fam != "b64-encode"
     cfg = rng.weighted([("sim", 4), ("tiny", 4), ("asan", 2)])
     kind = rng.choice(["cookie", "fd", "custom"])
@@ -147,6 +147,24 @@ def generate(rng, tier, index, seed):
         case["rows"] = gen_csv(vr)
     elif fam == "qp":
         case["raw"] = rbytes(vr, vr.range(0, 300)).hex()
+    elif fam == "uvector":
+        tag = vr.choice(["s8", "u16", "s16", "u32", "s32", "u64", "s64", "f32", "f64"])
+        vals = []
+        if tag[0] in "su":
+            bits = int(tag[1:])
+            lo, hi = (-(1 << (bits - 1)), (1 << (bits - 1)) - 1) if tag[0] == "s" else (0, (1 << bits) - 1)
+            for _ in range(vr.range(1, 8)):
+                vals.append(vr.weighted([(vr.choice([lo, hi, lo - 1, hi + 1, lo + 1, hi - 1, 0, -1, 1, hi + 2, 2 * hi + 2, lo * 2]), 3), (vr.range(lo, hi), 3), (vr.range(-(1 << 70), 1 << 70), 1)]))
+        elif tag == "f64":
+            # any double; judged by eqv? against the very object that was stored (the decimal reader is not part of this family)
+            for _ in range(vr.range(1, 8)):
+                vals.append(vr.weighted([(struct.unpack("<d", struct.pack("<Q", vr.below(1 << 64)))[0], 3), (vr.choice([0.0, -0.0, 1.5, float("inf"), float("-inf"), 5e-324, 1.7976931348623157e308]), 2)]))
+        else:
+            # f32: doubles with a short exact decimal form (m * 2^k, m < 2^24 or wider so that rounding to single is exercised), overflow, infinities
+            for _ in range(vr.range(1, 8)):
+                m = vr.choice([vr.below(1 << 24), vr.below(1 << 30), (1 << 24) + 1, (1 << 25) + 2, 1, 0])
+                vals.append(vr.weighted([(float(m * (1 << vr.range(0, 40))) / 64.0 * vr.choice([1, -1]), 4), (vr.choice([0.0, -0.0, 3.5e38, 1e300, -1e300, float("inf"), float("-inf"), 65504.0]), 2)]))
+        case["uv"] = {"tag": tag, "vals": [repr(v) if isinstance(v, float) else v for v in vals], "len": vr.range(1, 6), "bad_index": vr.choice([-1, None, None, 1 << 62])}
     elif fam == "uri":
         n = vr.weighted([(vr.range(0, 8), 2), (vr.range(9, 80), 3), (vr.range(120, 140), 1)])
         case["text"] = "".join(chr(vr.weighted([(vr.range(0x61, 0x7a), 5), (vr.range(0x20, 0x7e), 5), (vr.choice([0x25, 0x2b, 0x20, 0x26, 0x3d, 0x2f, 0x3f, 0x23, 0x7e, 0x27]), 3),
@@ -179,10 +197,23 @@ def stored_bytes(case):
         return o.getvalue().encode("utf-8")
     if fam == "qp":
         return quopri.encodestring(bytes.fromhex(case["raw"]))
+    if fam == "uvector":
+        return ("(" + " ".join(scm_num(v) for v in case["uv"]["vals"]) + ")").encode("ascii")
     if fam == "uri":
         # fault batch: the stored text is a (reference) encoding, which is then corrupted and handed to the decoder
         return uri_ref(case).encode("ascii") if case["fault"] else case["text"].encode("utf-8")
     return bytes.fromhex(case["raw"])
+
+
+def scm_num(v):
+    if isinstance(v, str):   # repr of a float
+        f = float(v)
+        if f != f:
+            return "+nan.0"
+        if f in (float("inf"), float("-inf")):
+            return "+inf.0" if f > 0 else "-inf.0"
+        return v if ("." in v or "e" in v) else v + ".0"
+    return str(v)
 
 
 def uri_ref(case):
@@ -207,6 +238,13 @@ def plan_of(case, data, chunks):
     elif fam == "qp":
         steps.append({"op": "eval", "src": "(guarded (lambda () (let ((s (slurp-chars (open-sim-input \"i\")))) (bv->list (quoted-printable-decode-bytevector (string->utf8 s))))))"})
         steps.append({"op": "eval", "src": "(guarded (lambda () (write-string (quoted-printable-encode-string (utf8->string (bytevector %s)))) 'ok))" % " ".join(str(b) for b in bytes.fromhex(case["raw"]) if b < 0x80)})
+    elif fam == "uvector":
+        u = case["uv"]
+        t = u["tag"]
+        steps.append({"op": "eval", "src": "(define vals (guarded (lambda () (read (open-sim-input \"i\"))))) (define uv (make-%svector %d)) (if (pair? vals) (length vals) vals)" % (t, u["len"])})
+        # every value: store at a tape-chosen index and read it back (value or error object, never a different value)
+        steps.append({"op": "eval", "src": "(if (pair? vals) (let loop ((l vals) (i 0) (acc '())) (if (null? l) (reverse acc) (loop (cdr l) (+ i 1) (cons (guarded (lambda () (%svector-set! uv (modulo i %d) (car l)) (%s (car l) (%svector-ref uv (modulo i %d))))) acc)))) 'skipped)" % (t, u["len"], "eqv?" if t == "f64" else "begin", t, u["len"])})
+        steps.append({"op": "eval", "src": "(list (guarded (lambda () (%svector-ref uv %d))) (guarded (lambda () (%svector-set! uv %d 0) 'stored)) (%svector-length uv))" % (t, u["len"], t, u["bad_index"] if u["bad_index"] is not None else u["len"], t)})
     elif fam == "uri":
         plus = "#t" if case["plus"] else "#f"
         steps.append({"op": "eval", "src": "(define s (slurp-chars (open-sim-input \"i\"))) (string-length s)"})
@@ -317,6 +355,40 @@ def execute(case, run):
             ascii_part = bytes(b for b in bytes.fromhex(case["raw"]) if b < 0x80)
             if steps[2]["res"] == "ok" and quopri.decodestring(enc) != ascii_part:
                 V.append(Verdict("codec-mismatch:qp-encode", "reference decoder reads chibi's encoding %r... as %r..., original %r..." % (enc[:60], quopri.decodestring(enc)[:40], ascii_part[:40]), {"fam": fam}))
+        elif fam == "uvector":
+            u = case["uv"]
+            t = u["tag"]
+            got = steps[2]["res"].strip("()").split()
+            if r["res"] != str(len(u["vals"])) or len(got) != len(u["vals"]):
+                V.append(Verdict("codec-mismatch:read-values", "read %s values from the stream, stored %d; results %s" % (r["res"], len(u["vals"]), steps[2]["res"][:80]), {"fam": fam}))
+            else:
+                for v, g in zip(u["vals"], got):
+                    if t[0] in "su":
+                        bits = int(t[1:])
+                        lo, hi = (-(1 << (bits - 1)), (1 << (bits - 1)) - 1) if t[0] == "s" else (0, (1 << bits) - 1)
+                        want = str(v) if lo <= v <= hi else "error-object"
+                        ok = g == want
+                    elif t == "f64":
+                        want = "#t"
+                        ok = g == "#t"
+                    else:
+                        f = float(v)
+                        if t == "f32":
+                            try:
+                                f = struct.unpack("<f", struct.pack("<f", f))[0]
+                            except OverflowError:
+                                f = float("inf") if f > 0 else float("-inf")
+                        want = scm_num(repr(f))
+                        try:
+                            gf = float(g.replace("+inf.0", "inf").replace("-inf.0", "-inf").replace("+nan.0", "nan").replace("-nan.0", "nan"))
+                            ok = (gf == f and (gf != 0 or struct.pack("<d", gf) == struct.pack("<d", f))) or (gf != gf and f != f)
+                        except ValueError:
+                            ok = False
+                    if not ok:
+                        V.append(Verdict("codec-mismatch:uvector", "%svector-set! of %s then -ref gave %s, expected %s" % (t, scm_num(v), g[:40], want), {"fam": fam, "tag": t, "in_range": want != "error-object"}))
+                        break
+                if not V and steps[3]["res"] != "(error-object error-object %d)" % u["len"]:
+                    V.append(Verdict("accessor-out-of-range", "%svector of length %d: ref at the length / set! at %s / length gave %s" % (t, u["len"], u["bad_index"], steps[3]["res"][:80]), {"fam": fam}))
         elif fam == "uri":
             text = case["text"]
             n = len(text)
@@ -377,7 +449,7 @@ def execute(case, run):
 
 def sample(case, oc):
     return {"family": case["fam"], "config": case["config"], "kind": case["kind"], "fault": case.get("corrupt"), "chunks": (case.get("chunks") or [])[:24],
-            "value": {k: (case[k][:200] if isinstance(case[k], str) else case[k]) for k in ("raw", "json", "rows", "acc", "text", "plus") if k in case}, "trace": oc.trace}
+            "value": {k: (case[k][:200] if isinstance(case[k], str) else case[k]) for k in ("raw", "json", "rows", "acc", "text", "plus", "uv") if k in case}, "trace": oc.trace}
 
 
 def shrink(case):
